@@ -84,6 +84,21 @@ pub fn transcript_step(s: &mut Sess<LS, ()>, op: &Op, run: &Run) -> String {
             }
             out
         }
+        "multimatch" => {
+            // multi-patterns with a variable that occurs twice (the order of the match list is
+            // part of the transcript)
+            let texts = ["?r == (u ?a), ?s == (u ?a)", "?r == (b ?a ?c), ?s == (u ?a)", "?r == (b ?a ?a)", "?r == (b ?a ?c), ?s == (b ?c ?a)"];
+            let text = texts[op.int(0).rem_euclid(texts.len() as i64) as usize];
+            let mp = MultiPattern::<LS>::parse(text).unwrap();
+            let ms = multi_ematch(&mp, &s.eg);
+            let mut out = format!("multimatch {} ->", ms.len());
+            for m in ms {
+                let mut kv: Vec<(String, AppliedId)> = m.into_iter().collect();
+                kv.sort();
+                out.push_str(&format!(" {kv:?}"));
+            }
+            out
+        }
         "extract" => {
             let mut out = String::from("extract");
             let ex = Extractor::<LS, AstSize>::new(&s.eg, AstSize);
@@ -198,6 +213,9 @@ impl Check for ReproCheck {
             }
             if is_union && w.chance(1, 4) {
                 ops.push(Op::new("rewrite").i(1 + w.below(15) as i64));
+            }
+            if is_union && w.chance(1, 4) {
+                ops.push(Op::new("multimatch").i(w.below(4) as i64));
             }
             if is_union && w.chance(1, 3) && !terms.is_empty() {
                 ops.push(Op::new("match").t(w.pick(&terms).clone()));
